@@ -1,2 +1,63 @@
-(* Property C11 — statements follow. *)
-From Nitro Require Import Opt.Run.
+(* Property C11 — a toggle counts its occurrences; reversal and env words follow fixed rules.  Only statements. *)
+From Coq Require Import List Arith Bool ZArith.
+From Coq Require Import Init.Byte.
+From Nitro Require Import Base.Bytes Base.Res Opt.Token Opt.Decl Opt.ParserModel Opt.ParserCore Opt.ParserSpec Opt.Vocab Opt.Run
+  Opt.RefineDefs Opt.Corollaries Opt.CoreEq Opt.History Opt.Positional Opt.Lexical Opt.Refine5 Opt.Sample.
+Import ListNotations.
+
+(* the count reported for a toggle (through C01/C03: the result is the value of the toggle's source) *)
+Theorem C11_toggle_rank : forall e t occ neg,
+  toggle_source truthy falsy e t occ neg =
+  if 0 <? occ then FromCmd (Z.of_nat occ)
+  else if 0 <? neg then FromCmd 0%Z
+  else if nonempty (env_get e (t_env t))
+       then match env_word (env_get e (t_env t)) with Some true => FromEnv 1%Z | Some false => FromEnv 0%Z | None => BadEnv end
+       else FromDefault (t_def t).
+Proof. exact (toggle_rank truthy falsy). Qed.
+Print Assumptions C11_toggle_rank.
+(* occurrences = each long spelling and each occurrence of the letter in short tokens *)
+Theorem C11_occurrences_definition : forall t items,
+  occurrences t items = list_sum (map (fun it => match it with
+                                                 | ItBundle ts => length (filter (Nat.eqb t) ts)
+                                                 | ItLong u => if u =? t then 1 else 0
+                                                 | _ => 0 end) items).
+Proof. reflexivity. Qed.
+Print Assumptions C11_occurrences_definition.
+(* --no-<name> only for toggles declared reversible *)
+Theorem C11_reversal_needs_permission : forall d items tail t, wf_items d items tail = true -> In (ItNo t) items ->
+  exists td, nth_error (d_toggles d) t = Some td /\ t_rev td = true.
+Proof. exact wf_items_reversal_needs_permission. Qed.
+Print Assumptions C11_reversal_needs_permission.
+(* both polarities, in either order and at any distance, are rejected *)
+Theorem C11_both_polarities_rejected : forall d items tail j, wf_items d items tail = true -> j < length (d_toggles d) ->
+  ~ (0 < occurrences j items /\ 0 < negations j items).
+Proof. exact wf_items_polarity. Qed.
+Print Assumptions C11_both_polarities_rejected.
+(* the environment vocabulary is closed: a word is accepted iff it is one of the 15 truthy / 15 falsy documented words *)
+Theorem C11_env_word_closed : forall w b, env_word w = Some b <-> In w (if b then truthy else falsy).
+Proof. exact (fun w b => env_word_closed truthy falsy w b vocab_disjoint). Qed.
+Print Assumptions C11_env_word_closed.
+(* every other word is a user-input error, not guessed *)
+Theorem C11_bad_env_word_iff : forall e t occ neg,
+  src_bad (toggle_source truthy falsy e t occ neg) = true <->
+  occ = 0 /\ neg = 0 /\ nonempty (env_get e (t_env t)) = true /\ env_word (env_get e (t_env t)) = None.
+Proof. exact (toggle_badenv_iff truthy falsy). Qed.
+Print Assumptions C11_bad_env_word_iff.
+(* transfer to the parser *)
+Theorem C11_parse_is_spec : forall d e st args,
+  wf_decl d = true -> no_clash d = true -> aligned d st -> snd (parse d e st args) = spec d e args.
+Proof. exact (parse_refines truthy falsy). Qed.
+Print Assumptions C11_parse_is_spec.
+
+Module Examples.
+Import Strings.String.
+Local Open Scope string_scope.
+Example C11_ex_counts : exists r, snd (parse sample_decl sample_env (init_st sample_decl) [B "--out=1"; B "-vav"; B "--verbose"; B "-a"]) = Ok r
+   /\ map snd (r_toggles r) = [2%Z; 3%Z].
+Proof. eexists. vm_compute. split; reflexivity. Qed.
+Example C11_ex_env_yes : exists r, snd (parse sample_decl sample_env (init_st sample_decl) [B "--out=1"]) = Ok r /\ map snd (r_toggles r) = [1%Z; 0%Z].
+Proof. eexists. vm_compute. split; reflexivity. Qed.
+Example C11_ex_polarity : snd (parse sample_decl sample_env (init_st sample_decl) [B "--out=1"; B "--no-all"; B "-v"; B "-a"]) = Err UserError
+  /\ snd (parse sample_decl sample_env (init_st sample_decl) [B "--out=1"; B "--no-verbose"]) = Err UserError.
+Proof. vm_compute. split; reflexivity. Qed.
+End Examples.
